@@ -7,7 +7,8 @@ filter="$1"
 tmp=$(mktemp -d /tmp/gowp-selftest.XXXXXX)
 trap 'rm -rf "$tmp"' EXIT
 fail=0; n=0
-while IFS='|' read -r name file expr funcs; do
+while IFS= read -r line; do
+  name="${line%%@@*}"; rest="${line#*@@}"; file="${rest%%@@*}"; rest="${rest#*@@}"; funcs="${rest##*@@}"; expr="${rest%@@*}"
   case "$name" in \#*|"") continue;; esac
   [ -n "$filter" ] && [[ "$name" != *$filter* ]] && continue
   [ -z "$funcs" ] && continue
